@@ -227,6 +227,11 @@ func PluginCaps(r *rand.Rand) []wire.Cap {
 			}
 		}
 		c.Value = randBytes(r, l)
+		if len(caps) > 0 && r.IntN(12) == 0 { // the same capability twice (same code, same value octets)
+			d := caps[r.IntN(len(caps))]
+			c = wire.Cap{Code: d.Code, Value: append([]byte(nil), d.Value...)}
+			l = len(c.Value)
+		}
 		if c.Code != 65 {
 			total += 2 + l
 		}
